@@ -594,12 +594,24 @@ def int_of_digits(v):
     return mk_int(z3.StrToInt(sstr(v)))
 
 
+_D = z3.Plus(z3.Range("0", "9"))
+FLOAT_REPR_RE = z3.Concat(z3.Option(z3.Re("-")), _D, z3.Option(z3.Concat(z3.Re("."), _D)),
+                          z3.Option(z3.Concat(z3.Re("e"), z3.Union(z3.Re("+"), z3.Re("-")), _D)))
+
 INT_STR = {}       # id(str term) -> (str term, int term): A5  int(str(i)) == i
 
 
+NONNEG_HOOK = [None]      # set by the engine: does the current path condition entail  t >= 0 ?
+
+
 def int_str_term(t):
-    """z3 String term of str(i) for the Int term t (registered so that int() of it gives t back)"""
-    s = z3.simplify(z3.If(t >= 0, z3.IntToStr(t), z3.Concat(z3.StringVal("-"), z3.IntToStr(-t))))
+    """z3 String term of str(i) for the Int term t (registered so that int() of it gives t back).  When the path condition entails
+    t >= 0 the term is the atomic IntToStr(t): an if-then-else numeral is hoisted out of concatenations by z3's simplifier, which
+    defeats the structural (piece-wise) string reasoning."""
+    if NONNEG_HOOK[0] is not None and not z3.is_int_value(t) and NONNEG_HOOK[0](t):
+        s = z3.IntToStr(t)
+    else:
+        s = z3.simplify(z3.If(t >= 0, z3.IntToStr(t), z3.Concat(z3.StringVal("-"), z3.IntToStr(-t))))
     INT_STR[s.get_id()] = (s, t)
     return s
 
